@@ -180,10 +180,11 @@ def check(tier):
     rep = C.Report(PROP, tier, "proof")
     rng = C.rng_for(PROP)
     ok, log = C.coq_make(["theories/Props/C19.vo"])
-    for t in ["emitted_stream", "emitted_stream_unique", "emitted_reader_exact"]:
+    for t in ["emitted_stream", "emitted_stream_unique", "emitted_reader_exact", "emitted_reader_with_retract_exact"]:
         rep.obligation("Props/C19.v: " + t, ok)
-    rep.cov["partial"] = ["the emitted reader's Retract (after the repair of D21/D22) is validated by the padding sweep, not proved",
-                          "multi-byte characters are outside the reader theorem (single-byte model); they are exercised by the runs"]
+    rep.cov["partial"] = ["the reader theorems are at byte level: UTF-8 decoding of the emitted Next() (a character = up to 4 calls of next()) is "
+                          "exercised by the runs, not modelled",
+                          "the model of the repaired reader is tied to the template by the compile-and-run sweep, not by a translator"]
     C.build_tools()
     exe = c08.emerge_binary()
     scratch = tempfile.mkdtemp(prefix="verif-c19-")
